@@ -6,6 +6,8 @@ From Compio.Model Require Import Base DriverKeys ResultSlot.
 From Compio.Thm Require Import DriverKeysThm ResultSlotThm.
 From Compio.Model Require Import PollDrv.
 From Compio.Thm Require Import PollDrvThm.
+From Compio.Gen Require Frag.
+From Compio.Thm Require FragWakeThm.
 
 (* in every reachable state an operation has at most one stored result *)
 Theorem C02_result_at_most_once : forall u es s k x,
@@ -147,3 +149,16 @@ Example C02_poll_nonvacuous :
   paccept [41;1;5; 42;1;4294967301; 41;2;5; 42;1;4294967301; 43;1;1; 44;2;5]%N <> None.
 Proof. cbv zeta. repeat split; vm_compute; try reflexivity; discriminate. Qed.
 Print Assumptions C02_poll_nonvacuous.
+
+(* ---- source tie (translated from the Rust source on every run by tools/rs2v.py
+        into gen/Frag.v; an edit of the function changes the generated definition) ---- *)
+(* io_uring poll_entries (compio-driver/src/sys/driver/iour/mod.rs): an operation's completion is
+   handled as non-final (the model's ECqeMore: result pushed to the multishot queue, key kept in
+   in_flight, the leaked reference stays with the kernel) exactly when the condition of the source,
+   as it stands now, holds - the kernel's MORE flag and nothing else - and as the final completion
+   (ECqeFinal: in_flight.remove + Entry::notify) otherwise *)
+Theorem C02_completion_class_is_source : forall more k,
+  (if Frag.iour_cqe_more more then ECqeMore k else ECqeFinal k)
+  = (if more then ECqeMore k else ECqeFinal k).
+Proof. exact FragWakeThm.cqe_class_tie. Qed.
+Print Assumptions C02_completion_class_is_source.
